@@ -31,6 +31,7 @@ class MolEditAdapter:
         self.nfresh = 0
         self.nap = 0
         self.view = None
+        self.view_tags = ()
         # identity tables (overridden by the trace driver for file-loaded molecules)
         self.idx, self.elem, self.label = dict(IDX), dict(ELEM), dict(LABEL)
         self.coordtab = {t: given_coord(t) for t in IDX}
@@ -72,6 +73,14 @@ class MolEditAdapter:
                     mol.add_atom(at, self.gc(act["a"]))
             elif a == "append_atom":
                 mol.append_atom(self._new(act["a"]))
+            elif a == "new_atom":
+                t = act["a"]
+                at = mol.new_atom(ml.Element[self.elem[t]], coord=self.gc(t), label=self.label[t] if self.label[t] != "none" else None)
+                self.keep.append(at)
+                self.tag[id(at)] = t
+                self.obj[t] = at
+                if self.view is not None and t in self.view_tags:
+                    self.view, self.view_tags = None, ()        # the held view was made of the old object of this identity
             elif a == "connect":
                 mol.connect(act["i"], act["j"])
             elif a == "append_bond":
@@ -117,6 +126,7 @@ class MolEditAdapter:
                 mol.substructure([self.obj[t] for t in act["S"]]).translate(SHIFT)
             elif a == "make_view":
                 self.view = mol.substructure([self.obj[t] for t in act["S"]])
+                self.view_tags = tuple(act["S"])
                 _ = self.view.coords, self.view.parent_atom_indices          # the view is used once, then kept
             elif a == "view_translate":
                 v, self.view = self.view, None
